@@ -220,7 +220,13 @@ def worker_entry(argv):
     if getattr(mod, 'ONLINE', None) and not os.environ.get('VF_NO_ONLINE'):
       # further workloads under the property's online monitor: the repository's own tests, other checks' generated cases
       from vf import foreign
-      foreign.run_spec(ctx, mod.ONLINE, tier)
+      try:
+        foreign.run_spec(ctx, mod.ONLINE, tier)
+      except Inconclusive:
+        raise
+      except Exception as e:  # the monitor could not attach to this tree: keep what the check itself observed
+        ctx.note('online_workload_failed', '%s: %s' % (type(e).__name__, e))
+        ctx.count('online_workload_failed')
   except Inconclusive as e:
     out = ctx.result()
     out['inconclusive'] = str(e)
